@@ -15,6 +15,13 @@ from .analysis import src
 from .cfg import local_nodes
 
 SRC = '!'
+# label prefix: the secret is not in str(exception) but in the exception it
+# replaced (exc.__context__ / exc.__cause__, kept even with `from None`)
+CTX = 'ctx:'
+# requests.Session verbs end up in Session.request(method, url, **kwargs),
+# which BertESession overrides
+HTTP_VERBS = ('get', 'post', 'put', 'delete', 'patch', 'head', 'options')
+SESSION_REQUEST = 'bert_e.git_host.base.BertESession.request'
 
 # ---------------------------------------------------------------- the tables
 # attribute / key names whose value is a credential (each confirmed by
@@ -166,6 +173,8 @@ class TaintEngine:
                  src(call.func.value) == 'self' and f.cls is not None and
                  f.cls.name == 'BertE'):
             tg |= set(self.handlers)
+        if self._is_session_verb(call) and SESSION_REQUEST in self.summ:
+            tg.add(SESSION_REQUEST)
         if cal[0] == 'class':
             init = self.prog.lookup_method(self.prog.classes[cal[1]],
                                            '__init__')
@@ -174,8 +183,33 @@ class TaintEngine:
         return [self.prog.funcs[t] for t in sorted(tg)
                 if t in self.summ]
 
+    @staticmethod
+    def _is_session_verb(call):
+        return isinstance(call.func, ast.Attribute) and \
+            call.func.attr in HTTP_VERBS and \
+            src(call.func.value).rpartition('.')[2] == 'session'
+
     def bind(self, g, call, f, state):
         """Labels of actual arguments keyed by callee parameter name."""
+        if g.qname == SESSION_REQUEST and self._is_session_verb(call):
+            # session.post(url, headers=h) is request('POST', url, headers=h)
+            kwarg = g.node.args.kwarg.arg if g.node.args.kwarg else 'kwargs'
+            out = {'method': frozenset()}
+            if call.args:
+                out['url'] = self.labels(f, call.args[0], state)
+            rest = frozenset()
+            for a_ in call.args[1:]:
+                rest |= self.labels(f, a_, state)
+            for k in call.keywords:
+                lab = self.labels(f, k.value, state)
+                if k.arg is None:
+                    rest |= lab
+                elif k.arg == 'url':
+                    out['url'] = lab
+                else:
+                    out[kwarg + '::' + k.arg] = lab
+            out[kwarg + '::*'] = rest
+            return out
         ps = list(g.params)
         recv = None
         if g.cls is not None and ps and ps[0] in ('self', 'cls'):
@@ -258,7 +292,10 @@ class TaintEngine:
     def inst(self, labels, binding):
         out = set()
         for l in labels:
-            if l == SRC:
+            if l.startswith(CTX):
+                for x in self.inst([l[len(CTX):]], binding):
+                    out.add(x if x.startswith(CTX) else CTX + x)
+            elif l == SRC:
                 out.add(SRC)
             elif l in binding:
                 out |= binding[l]
@@ -282,6 +319,11 @@ class TaintEngine:
                     out |= v
             return out
         if isinstance(e, ast.Attribute):
+            if e.attr in ('__context__', '__cause__'):
+                inner = self.labels(f, e.value, state)
+                return frozenset(
+                    {l[len(CTX):] for l in inner if l.startswith(CTX)} |
+                    {l for l in inner if l.startswith(CTX)})
             if e.attr in CLEAN_ATTRS:
                 return frozenset()
             if e.attr in SOURCE_ATTRS or e.attr in self.derived_attrs:
@@ -795,6 +837,7 @@ class TaintEngine:
 
     def sink(self, f, node, lab, what, origin=None):
         self.stats['sinks_examined'] += 1
+        lab = frozenset(l for l in lab if not l.startswith(CTX))
         here = (f.qname, getattr(node, 'lineno', f.lineno), f.path)
         if SRC in lab:
             self.report(origin or here, what,
@@ -923,4 +966,8 @@ class TaintEngine:
                           'inside except without "from None")')
                 payload |= hl
             pairs |= {(cls_, l) for l in payload}
+            # the exception being handled stays reachable from the new one
+            # (__context__), whatever the `from` clause says
+            pairs |= {(cls_, l if l.startswith(CTX) else CTX + l)
+                      for l in hl}
         self.route_exception(f, st, pairs)
